@@ -58,12 +58,12 @@ Proof.
   destruct (Reqb rx0 0) eqn:Ex; destruct (Reqb ry0 0) eqn:Ey; cbn [andb].
   - apply Reqb_true in Ex, Ey. exfalso. destruct Hne; [apply Zx in Ex | apply Zy in Ey]; lra.
   - apply Reqb_true in Ex. assert (ry0 <> 0) by (intros E; apply Reqb_true in E; congruence).
-    exists ry0, ry0. repeat split; try lra. intros ?. apply Zx in Ex. lra.
+    exists ry0, ry0. split; [lra|]. split; [lra|]. split; [reflexivity|]. split; [|reflexivity]. intros ?. apply Zx in Ex. lra.
   - apply Reqb_true in Ey. assert (rx0 <> 0) by (intros E; apply Reqb_true in E; congruence).
-    exists rx0, rx0. repeat split; try lra. intros ?. apply Zy in Ey. lra.
+    exists rx0, rx0. split; [lra|]. split; [lra|]. split; [reflexivity|]. split; [reflexivity|]. intros ?. apply Zy in Ey. lra.
   - assert (rx0 <> 0) by (intros E; apply Reqb_true in E; congruence).
     assert (ry0 <> 0) by (intros E; apply Reqb_true in E; congruence).
-    exists rx0, ry0. repeat split; lra.
+    exists rx0, ry0. split; [lra|]. split; [lra|]. split; [reflexivity|]. split; reflexivity.
 Qed.
 (* a single point cannot be given a pixel size from a shape alone: the code raises ValueError *)
 Lemma cd_shape_point c0 c1 w h : cd_shape_clean c0 c1 c0 c1 w h = None.
@@ -141,7 +141,8 @@ Proof. unfold gen_ucfe_shape, ucfe_shape_clean, aou_of. cbn -[Z.max]. rewrite ?R
 
 Lemma gen_cd_shape_glob_char c1 c3 w h aou :
   gen_cd_shape_glob RO (tt, c1, tt, c3) tt (h, w) aou =
-    let '(a, b) := ucfe_shape_clean (aou_west aou) (aou_east aou) w in cd_shape_clean a c1 b c3 w h.
+    cd_shape_clean (fst (ucfe_shape_clean (aou_west aou) (aou_east aou) w)) c1
+                   (snd (ucfe_shape_clean (aou_west aou) (aou_east aou) w)) c3 w h.
 Proof.
   rewrite <- gen_cd_shape_char with (aou := aou). unfold gen_cd_shape_glob, gen_cd_shape, gen_ucfe_keep.
   rewrite gen_ucfe_shape_char. reflexivity.
@@ -158,8 +159,10 @@ Proof.
   - rewrite (Z.max_l w 2), (Z.max_l (w - 1) 1) by lia. rewrite minus_IZR.
     assert (2 <= IZR w) by (apply (IZR_le 2); lia).
     split; [|split; field; lra].
-    apply Rminus_lt_0. replace (E - (E - W) / IZR w / 2 - (W + (E - W) / IZR w / 2)) with ((E - W) * (1 - / IZR w)) by (field; lra).
-    apply Rmult_lt_0_compat; [lra|]. assert (/ IZR w <= / 2) by (apply Rinv_le_contravar; lra). lra.
+    assert (0 < (E - W) * (1 - / IZR w)) as P.
+    { apply Rmult_lt_0_compat; [lra|]. assert (/ IZR w <= / 2) by (apply Rinv_le_contravar; lra). lra. }
+    replace ((E - W) * (1 - / IZR w)) with (E - (E - W) / IZR w / 2 - (W + (E - W) / IZR w / 2)) in P by (field; lra).
+    lra.
 Qed.
 
 Definition ucfe_res_clean (W E rx : R) : R * R := (W + rx / 2, E - rx / 2).
@@ -169,14 +172,16 @@ Lemma gen_ucfe_res_char c1 c3 rx ry aou :
 Proof. unfold gen_ucfe_res, ucfe_res_clean, aou_of. cbn. rewrite ?Rmult_1_r. reflexivity. Qed.
 Lemma gen_cd_res_glob_char c1 c3 rx ry aou :
   gen_cd_res_glob RO (tt, c1, tt, c3) (rx, ry) tt aou =
-    let '(a, b) := ucfe_res_clean (aou_west aou) (aou_east aou) rx in cd_res_clean a c1 b c3 rx ry.
+    cd_res_clean (fst (ucfe_res_clean (aou_west aou) (aou_east aou) rx)) c1
+                 (snd (ucfe_res_clean (aou_west aou) (aou_east aou) rx)) c3 rx ry.
 Proof.
   rewrite <- gen_cd_res_char with (aou := aou). unfold gen_cd_res_glob, gen_cd_res, gen_ucfe_keep.
   rewrite gen_ucfe_res_char. reflexivity.
 Qed.
 Lemma gen_cd_res_scalar_glob_char c1 c3 r aou :
   gen_cd_res_scalar_glob RO (tt, c1, tt, c3) r tt aou =
-    let '(a, b) := ucfe_res_clean (aou_west aou) (aou_east aou) r in cd_res_clean a c1 b c3 r r.
+    cd_res_clean (fst (ucfe_res_clean (aou_west aou) (aou_east aou) r)) c1
+                 (snd (ucfe_res_clean (aou_west aou) (aou_east aou) r)) c3 r r.
 Proof.
   rewrite <- gen_cd_res_char with (aou := aou). unfold gen_cd_res_scalar_glob, gen_cd_res, gen_ucfe_keep.
   rewrite gen_ucfe_res_char. reflexivity.
